@@ -34,10 +34,14 @@ static const char* MODELS[] = {
     "broadcast chan b; double d = " S "0.5" E "; clock x; int i;\n"
     "process Q() {\n state A { " S S "x' == 1" E " && " S "x <= 10" E E " ; " S "2" E " }, B;\n init A;\n"
     " trans A -> B { guard " S S "i >= 0" E " && " S "x >= " S "1" E E E "; sync b!; assign d = " S S "d" E " * " S "2.0" E E ", i = " S "i + 1" E "; };\n}\n"
-    "system Q;\n"};
+    "system Q;\n",
+    // 4: rejected: the text ends inside a block comment that is never closed
+    "int g; clock x; chan c;\n"
+    "process P() {\n state A { " S "x <= 5" E " }, B;\n init A;\n trans A -> B { guard " S S "g < 3" E " and " S "not " S "(g == 1)" E E E "; sync c!; assign g = " S "g + 1" E "; };\n}\n"
+    "system P;\n/* the rest is missing"};
 #undef S
 #undef E
-static const int NMODELS = 4;
+static const int NMODELS = 5;
 
 struct Site { size_t open, close; };
 static std::vector<Site> sites(const std::string& m)
@@ -55,9 +59,9 @@ static std::string strip(const std::string& m, long wrap_open = -1, long wrap_cl
     return o;
 }
 struct Obs { std::string dump, diag, methods; bool ok; };
-static Obs observe(const std::string& xta)
+static Obs observe(const std::string& xta, bool newsyntax = true)
 {
-    Model m; Obs o;
+    Model m(newsyntax); Obs o;
     o.ok = m.load(xta, true);
     o.dump = dump_document(m.doc); o.diag = dump_diagnostics(m.doc); o.methods = dump_methods(m.doc);
     return o;
@@ -71,7 +75,7 @@ static void compare(const Obs& a, const Obs& b, const std::string& btext)
     vf_assert(a.dump == b.dump, "document-unchanged");
 }
 
-extern "C" void harness_parentheses()  /* vf: bounds=4_models(accepted,rejected_in_builder,rejected_by_type_checker,stochastic)_x_every_marked_sub-expression(10..22_per_model)_wrapped_in_redundant_parentheses */
+extern "C" void harness_parentheses()  /* vf: bounds=5_models(accepted,rejected_in_builder,rejected_by_type_checker,stochastic,ending_in_an_unterminated_comment)_x_every_marked_sub-expression(10..22_per_model)_wrapped_in_redundant_parentheses */
 {
     int mi = vf_pick("!model", NMODELS);
     std::string m = MODELS[mi];
@@ -93,12 +97,16 @@ extern "C" void harness_whitespace()  /* vf: bounds=quick:2_models_x_3_fillers(n
     const int nm = 2, nf = 3;
 #endif
     int mi = vf_pick("!model", nm);
+#ifndef VF_TIER_THOROUGH
+    if (mi == 1) mi = 4;   // quick tier: the accepted model and the one ending in an unterminated comment
+#endif
     std::string m = strip(MODELS[mi]);
     Obs base = observe(m);
     std::vector<size_t> gaps;
     for (size_t i = 0; i < m.size(); i++) if (m[i] == ' ') gaps.push_back(i);
     int g = vf_pick("!gap", 160), f = vf_pick("!filler", nf);
     vf_assume(g < (int)gaps.size());
+    vf_assume(m.find("/* the rest") == std::string::npos || gaps[g] < m.find("/* the rest"));   // a comment put inside the open comment would close it: not a redundant insertion
     std::string r = m.substr(0, gaps[g]) + FILL[f] + m.substr(gaps[g] + 1);
     compare(base, observe(r), r);
     vf_reach("end");
@@ -136,5 +144,35 @@ extern "C" void harness_renaming()  /* vf: bounds=4_models_x_16_user_identifiers
     auto resort = [](std::string s) { std::vector<std::string> l; size_t p = 0; while (p < s.size()) { size_t q = s.find('\n', p); l.push_back(s.substr(p, q - p)); p = q + 1; } std::sort(l.begin(), l.end()); std::string o; for (auto& x : l) o += x + "\n"; return o; };
     want.diag = resort(want.diag); o.diag = resort(o.diag);
     compare(want, o, r);
+    vf_reach("end");
+}
+
+// old (3.x) syntax: the same rewrites on an old-syntax model
+extern "C" void harness_old_syntax()  /* vf: bounds=old-syntax_model_x_(keyword_alias_swapped_at_any_occurrence|redundant_parentheses|comment/newline_at_any_space) reach=end */
+{
+    static const char* OLD =
+        "clock x; int i; int j; chan c;\n"
+        "process P {\n state A { x <= 5 }, B;\n init A;\n trans A -> B { guard i < 3 and not (j == 1), x >= 1; sync c!; assign i := i + 1; },\n"
+        "  B -> A { guard i > 0 or j > 0 and i < 5; sync c?; assign j := 0; };\n}\n"
+        "system P;\n";
+    static const char* FROM[] = {" and ", " or ", "not ", " := ", " (j == 1)", " i > 0 or", " /sp/"};
+    static const char* TO[] = {" && ", " || ", "!", " = ", " ((j == 1))", " (i > 0) or", ""};
+    int rw = vf_pick("!rewrite", 7), occ = vf_pick("!occurrence", 3), fill = vf_pick("!filler", 3);
+    std::string m = OLD;
+    Obs base = observe(m, false);
+    std::string r;
+    if (rw < 6) {
+        size_t pos = 0; int seen = -1;
+        for (;;) { pos = m.find(FROM[rw], pos); if (pos == std::string::npos) break; if (++seen == occ) break; pos++; }
+        vf_assume(pos != std::string::npos);
+        r = m.substr(0, pos) + TO[rw] + m.substr(pos + strlen(FROM[rw]));
+    } else {
+        static const char* FILL[] = {"\n", " /* c */ ", " // c\n"};
+        std::vector<size_t> gaps; for (size_t i = 0; i < m.size(); i++) if (m[i] == ' ') gaps.push_back(i);
+        size_t g = (size_t)(occ * 17 + fill * 5) % gaps.size();
+        r = m.substr(0, gaps[g]) + FILL[fill] + m.substr(gaps[g] + 1);
+    }
+    vf_assert(base.ok, "old-syntax-model-accepted");
+    compare(base, observe(r, false), r);
     vf_reach("end");
 }
